@@ -378,3 +378,57 @@ Theorem C05_history_of_job_operations :
     Forall (fun l => client_of l = c) (Compose.C14R.job_trace pl c ops Job.s0).
 Proof. exact Compose.Gen.exchange_history_of_job_ops. Qed.
 Print Assumptions C05_history_of_job_operations.
+
+(* ---- non-vacuity of the composition ------------------------------------------------------------------
+   Job.v: two Tasks (numbers drawn 7 and 9), hasJob, the result of 7, a duplicate of it, a packet that
+   is no result, Cancel of the finished Job, a Task with the caller-chosen tracked number 9 (refused by
+   both).  The history is admissible; the labels read off it; the session of Exchange.v tracks 9 and
+   has finished (7, serial 0) with 1100. *)
+Definition cx_pl (n : nat) : Z := 100 * Z.of_nat n + 100.
+Definition cx_ops : list Job.op :=
+  [ Job.OTask 0 [7] false; Job.OTask 0 [7; 9] false; Job.OHasJob 9; Job.OHandle true 7 false 1100;
+    Job.OHandle true 7 true 55; Job.OHandle false 9 false 1; Job.OCancel 0%nat; Job.OTask 9 [] false ].
+
+Example C05_compose_nonvacuous_jobs :
+  Compose.C14R.job_adm cx_pl ex_run 1 cx_ops Job.s0 init_sess /\
+  Compose.C14R.job_trace cx_pl 1 cx_ops Job.s0 =
+    [Task 1 7 100; Task 1 9 200; Dup 1 7 1100; Dup 1 7 55; Task 1 9 300] /\
+  map p_job (s_jobs (run_hist ex_run (Compose.C14R.job_trace cx_pl 1 cx_ops Job.s0) init 1)) = [9] /\
+  map (fun d => (p_job (fst d), p_ser (fst d), snd d))
+      (s_done (run_hist ex_run (Compose.C14R.job_trace cx_pl 1 cx_ops Job.s0) init 1)) = [(7, 0, 1100)].
+Proof.
+  split; [|vm_compute; repeat split; reflexivity].
+  vm_compute.
+  repeat match goal with
+         | |- _ /\ _ => split
+         | |- True => exact I
+         | |- _ = _ => reflexivity
+         | |- 0 = 0 \/ _ => left; reflexivity
+         | |- _ \/ (_ -> False) => right; discriminate
+         | |- _ = None \/ _ => right; eexists; split; reflexivity
+         end.
+Qed.
+
+(* Batch.v: the queue of C03_nonvacuous (a large packet, a keep-alive, a packet for device 2, a small
+   one, a large one, one with key material, a small one; F = 256 KiB).  The premises of the C03
+   contract hold (ser := the packet ID ignores tags and device); the five transmissions of its
+   drain consume 2, 2, 1, 1, 1 packets; the five Exchange steps with these budgets empty the server
+   queue of Exchange.v and start the five tasks numbered >= 2 in queue order (the packet numbered 1 is
+   delivered by Batch.v like the others; the client of Exchange.v, like Session.handle, acts on numbers >= 2). *)
+Example C05_compose_nonvacuous_batch :
+  (forall p t, Batch.p_id (Batch.set_tags p t) = Batch.p_id p) /\
+  (forall p d, Batch.p_id (Batch.set_dev p d) = Batch.p_id p) /\
+  Batch.wf_conf C03.ex_conf /\ Forall Compose.C03E.okp C03.ex_queue /\
+  Batch.all_reg C03.ex_reg (Batch.c_own C03.ex_conf) C03.ex_queue /\
+  map (Compose.C03E.abs Batch.p_id) C03.ex_queue =
+    [Pkt 1 7 11; flag_pkt; Pkt 2 8 12; Pkt 3 9 13; Pkt 4 10 14; Pkt 5 11 0; Pkt 6 12 16] /\
+  map (fun st => (length (Batch.pending (Batch.st_after st))))
+      (Batch.drain C03.ex_conf C03.ex_reg (Batch.mkS C03.ex_queue None 0)) = [5; 3; 2; 1; 0]%nat /\
+  let s := set_sq (map (Compose.C03E.abs Batch.p_id) C03.ex_queue) init_sess in
+  let s' := Compose.C03E.srun ex_run 1 (Compose.C03E.down_labels 1 [2; 2; 1; 1; 1]%nat) s in
+  sq s' = [] /\ c_inbox s' = [Pkt 2 8 12; Pkt 3 9 13; Pkt 4 10 14; Pkt 5 11 0; Pkt 6 12 16].
+Proof.
+  destruct C03.C03_nonvacuous as [W [Q [R _]]].
+  split; [reflexivity|]. split; [reflexivity|]. split; [exact W|]. split; [exact Q|]. split; [exact R|].
+  split; [vm_compute; reflexivity|]. split; [vm_compute; reflexivity|]. vm_compute. split; reflexivity.
+Qed.
